@@ -42,7 +42,7 @@ pub trait Controller: Send + Sync + 'static {
     /// Cooperative fault point: `true` makes the caller take its failure path.
     fn fail_at(&self, site: &'static str) -> bool;
     /// Observation only.
-    fn event(&self, kind: &'static str, a: u64, b: u64);
+    fn event(&self, kind: &'static str, a: u64, b: u64, c: u64);
 }
 
 /// Block device as the store sees it (offsets and lengths in bytes).
@@ -97,9 +97,9 @@ pub fn fail_at(site: &'static str) -> bool {
 }
 
 #[inline]
-pub fn event(kind: &'static str, a: u64, b: u64) {
-    if let Some(c) = controller() {
-        c.event(kind, a, b);
+pub fn event(kind: &'static str, a: u64, b: u64, c: u64) {
+    if let Some(ctl) = controller() {
+        ctl.event(kind, a, b, c);
     }
 }
 
